@@ -352,6 +352,12 @@ func sliceLitElems(v ssa.Value) ([]ssa.Value, bool) {
 		return nil, false
 	}
 	elems := make([]ssa.Value, arr.Len())
+	// an array assigned as a whole (e.g. `h := sha256.Sum256(x); h[:]`) is not an element literal
+	for _, r := range *al.Referrers() {
+		if st, ok := r.(*ssa.Store); ok && st.Addr == ssa.Value(al) {
+			return nil, false
+		}
+	}
 	for _, r := range *al.Referrers() {
 		ia, ok := r.(*ssa.IndexAddr)
 		if !ok {
